@@ -37,6 +37,9 @@ pub fn run_c20(bytes: &[u8], tier: Tier) -> Outcome {
     let mut ch = Choices::new(bytes);
     let steps = if tier == Tier::Quick { 40 } else { 120 };
     let nested = ch.flag(1, 3);
+    // decoder 2: the bind closure may hand the memoised node back as it is, so that a re-run with
+    // an equal key returns the identical node
+    let direct = crate::choice::dv() >= 2 && ch.flag(1, 3);
     let mut fails: Vec<Failure> = vec![];
     let mut trace: Vec<String> = vec![format!("memoised f(k) = x.map(|v| v + k); bind {}calls it with key lhs % {KEYS}", if nested { "(nested in another bind) " } else { "" })];
     let mut classes: Vec<(&'static str, u64)> = vec![];
@@ -68,7 +71,11 @@ pub fn run_c20(bytes: &[u8], tier: Tier) -> Outcome {
                     let n = memo(k);
                     let after = count(k);
                     INNER_CALLS.with(|c| c.borrow_mut().push((k, before, after, n.clone())));
-                    n.map(|v| v + 1000)
+                    if direct {
+                        n
+                    } else {
+                        n.map(|v| v + 1000)
+                    }
                 })
             }
         };
@@ -200,7 +207,7 @@ pub fn run_c20(bytes: &[u8], tier: Tier) -> Outcome {
                         }
                     }
                     if let Some(o) = &bind_obs {
-                        let want = xv + swv.rem_euclid(KEYS as i32) + 1000;
+                        let want = xv + swv.rem_euclid(KEYS as i32) + if direct { 0 } else { 1000 };
                         let got = o.try_get_value();
                         if got != Ok(want) && !matches!(got, Err(incremental::ObserverError::NeverStabilised)) {
                             fails.push(Failure { prop: "C20", clause: "value", msg: format!("step {step}: bind over the memoised node returned {got:?}, expected {want}") });
@@ -350,6 +357,7 @@ pub fn run_c20(bytes: &[u8], tier: Tier) -> Outcome {
             ("shared_node_hits", shared_hits),
             ("stabilises", rounds),
             ("cases_nested_bind", nested as u64),
+            ("cases_bind_returns_the_memoised_node_itself", direct as u64),
         ];
     });
     if let Err(m) = r {
